@@ -21,6 +21,11 @@ PICKLE_PROTOCOLS = (2, 3, 4, 5)
 _MISSING = object()
 
 
+class OriginalFails(RuntimeError):
+    """An operation fails on the ORIGINAL dataclass: nothing can be asked of the slotted one (the caller decides whether
+    this is a broken fixture - e.g. a slotted base class - or a harness error)."""
+
+
 class Info:
     """Facts about one class spec that the model needs (derived from the class *statement*, not from SC)."""
 
@@ -274,7 +279,7 @@ def judge(OC, SC, info: Info, o_mod=None, s_mod=None, full=True, count=None):  #
     for lab, a, k in pats:
         o = _obs(OC, *_fresh(a), **_fresh(k))
         if o[0] != "ok":
-            raise RuntimeError(f"slotmodel: the ORIGINAL dataclass cannot be built with {lab} {a} {k}: {o}")
+            raise OriginalFails(f"slotmodel: the ORIGINAL dataclass cannot be built with {lab} {a} {k}: {o}")
         s = _obs(SC, *_fresh(a), **_fresh(k))
         cnt("construct")
         if s[0] != "ok":
@@ -424,7 +429,7 @@ def judge(OC, SC, info: Info, o_mod=None, s_mod=None, full=True, count=None):  #
             n_get = len(getattr(s_mod, "GETSTATE_CALLS", ())) if s_mod is not None else 0
             ro = _obs(op, xo)
             if ro[0] != "ok":
-                raise RuntimeError(f"slotmodel: {opname} of the ORIGINAL instance fails: {ro}")
+                raise OriginalFails(f"slotmodel: {opname} of the ORIGINAL instance fails: {ro}")
             rs = _obs(op, xs)
             tag = opname + (f"(protocol {PICKLE_PROTOCOLS[pi - 2]})" if opname == "pickle" else "")
             wit = f"{tag} of {xs!r} [{lab}]" + (" carrying tlmc_extra=7 in its __dict__" if with_attr else "")
